@@ -6,13 +6,17 @@ def kind_a(report, tier, seed):
     from contracts import idexpr
 
     idexpr.run(report, {"kernel_type"})
+    from contracts import lowering_shell
+
+    lowering_shell.terminal_expression(report, 3 if tier == "quick" else 4)
+    lowering_shell.generate_module(report)
 
 
 def check(argv):
     return run(
         "C04", argv, kind_a=kind_a, analyses=["compute_ro", "value_blind", "assemble_blind"],
         static_note="static analyses of standins/static_ir.py are sound over-approximations (declared pointer types, pointer-origin taint)",
-        explanation="Kind A: KernelType.is_assemble/is_compute truth table proved. Kind B, per kernel of the family and for all inputs: the compute kernel contains no allocation and no store to an integer array, a capacity "
+        explanation="Kind A: KernelType.is_assemble/is_compute truth table proved; generate_module_tensora (callees opaque) computes one graph and one definition and generates every requested kind from them, in order. Kind B: to_ir_terminal_expression raises the same flags in every kernel kind and emits value work iff the kernel computes (symbolic expression, every output shape). Kind B, per kernel of the family and for all inputs: the compute kernel contains no allocation and no store to an integer array, a capacity "
                     "or a struct field (it cannot change the structure); no branch/loop condition, index or integer variable of any kernel depends on float data "
                     "(control flow and cursors are value-independent, so compute can be re-run on re-valued inputs); the assemble kernel reads no input values. "
                     "Kind C: assemble;compute (compute run twice) against evaluate on the reference machine - identical structure, identical polynomial values.",
